@@ -1394,8 +1394,11 @@ class Qube(object):
         if not self._derivs_:
             return self
 
+        # The cached object was handed out before; it is only used again if
+        # nobody has inserted derivatives into it in the meantime
         if not Qube.DISABLE_CACHE and 'wod' in self._cache_:
-            return self._cache_['wod']
+            if not self._cache_['wod']._derivs_:
+                return self._cache_['wod']
 
         wod = Qube.__new__(type(self))
         wod.__init__(self._values_, self._mask_, example=self)
